@@ -6,7 +6,6 @@
 package sim
 
 import (
-	"sync/atomic"
 	"bytes"
 	"crypto/sha256"
 	"encoding/hex"
@@ -18,6 +17,7 @@ import (
 	"strconv"
 	"strings"
 	"sync"
+	"sync/atomic"
 	"testing/synctest"
 	"time"
 
